@@ -257,4 +257,48 @@ func runC32(c *Ctx) {
 		c.Check(n == 1 && okLower, r4, "Tokenize: every emitted token is strings.ToLower of its field", ft.Decl.Pos(), "token := strings.ToLower(field)",
 			"tokens are not folded with strings.ToLower unconditionally: case variants of the same word (in particular with non-ASCII capitals) become different terms, so queries miss documents and term statistics are split", nil)
 	}
+
+	r5 := c.Rule("R5", "the Index keeps no derived state that can go stale: a field of search.Index assigned outside the constructor (a memo of corpus statistics, say) must be assigned on every successful path of Add as well; today no method assigns any field", 1)
+	{
+		ist, _ := w.Object("search", "Index").Type().Underlying().(*types.Struct)
+		if ist == nil {
+			panic(undecided{"search.Index is not a struct"})
+		}
+		fa := w.Fn("search.Index.Add")
+		ga := w.G(fa)
+		okAdd := func(n *GNode) bool { return n.Ret != nil && ga.ClassifyReturn(n) == RetNil }
+		nF := 0
+		for i := 0; i < ist.NumFields(); i++ {
+			fld := ist.Field(i)
+			nF++
+			var writers []string
+			var pos token.Pos
+			for _, fn := range w.declaredFuncs("search") {
+				for _, ws := range w.writesOf(fn, fld, true) {
+					writers = append(writers, shortKey(fn.Key))
+					pos = ws.Pos
+				}
+			}
+			writers = dedup(writers)
+			if len(writers) == 0 {
+				continue
+			}
+			// maintained by Add on every success path?
+			ainfo := fa.Pkg.TypesInfo
+			setsF := func(n *GNode) bool {
+				if as, ok := n.Ast.(*ast.AssignStmt); ok {
+					for _, l := range as.Lhs {
+						if fieldOfSelector(ainfo, l) == fld {
+							return true
+						}
+					}
+				}
+				return false
+			}
+			maintained := len(ga.Find(setsF)) > 0 && len(ga.MustPrecede(setsF, okAdd)) == 0
+			c.Check(maintained, r5, "Index."+fld.Name()+": state kept in the Index is maintained by Add", pos, "assigned on every successful path of Add",
+				fmt.Sprintf("Index.%s is assigned by %v but not on every successful path of Add: a Search that follows an Add on the same Index object works from the remembered value (N, total length) while document frequencies and lengths are live - the scores are not BM25 any more, and an N remembered as 0 makes every later Search return nothing", fld.Name(), writers), nil)
+		}
+		c.Check(nF >= 4, r5, "Index fields inventoried", token.NoPos, fmt.Sprintf("%d fields", nF), fmt.Sprintf("only %d fields", nF), nil)
+	}
 }
